@@ -36,10 +36,9 @@ Example grid_context_background_painted :
   painted (paint_ctx (from_box w_grid)) 1 LBorder = true /\ wf w_grid = true.
 Proof. vm_compute. repeat split. Qed.
 
-(* 3. z-index on a box that is not positioned (and is not a grid item) but forms a stacking context through
-      opacity: CSS 2.1 9.9.1 says z-index does not apply, so the box is painted with the z = 0 contexts (after the
-      in-flow blocks); StackingContext.__init__ reads style['z_index'] regardless and paints it in the negative
-      bucket, before them. *)
+(* 3. (was a finding, fixed in /repo 673f68d) z-index on a box that is not positioned (nor a flex / grid item) but
+      forms a stacking context through opacity: it does not apply (CSS 2.1 9.9.1), the box is painted with the
+      z = 0 contexts, after the in-flow blocks; the tree is now well-formed and the order theorem covers it. *)
 Definition w_zstatic : box :=
   Box (plain 0 KBlock)
     [Box (plain 1 KBlock) [];
@@ -54,7 +53,22 @@ Fixpoint index_of (l : list event) (id : Z) (ly : layer) (n : nat) : option nat 
 Definition before (l : list event) (a b : Z) : bool :=
   match index_of l a LBg 0, index_of l b LBg 0 with Some x, Some y => Nat.ltb x y | _, _ => false end.
 
-Theorem z_index_applied_to_non_positioned :
-  exists t, before (appendix_E_paint t) 1 2 = true /\ before (paint_ctx (from_box t)) 2 1 = true /\
-            wf_kids t = true.
-Proof. exists w_zstatic. vm_compute. repeat split. Qed.
+Example z_index_ignored_on_non_positioned :
+  before (appendix_E_paint w_zstatic) 1 2 = true /\ before (paint_ctx (from_box w_zstatic)) 1 2 = true /\
+  wf w_zstatic = true /\ ctx_neg (from_box w_zstatic) = [].
+Proof. vm_compute. repeat split. Qed.
+
+(* 4. (was a finding, fixed in /repo 5ad683d) a cell of a collapsed-border table painted as a context (here:
+      position: relative) paints its background and no border of its own *)
+Definition w_ccell : box :=
+  Box (plain 0 KBlock)
+    [Box (I 1 KTable PStatic None TNone 64 (* border-collapse *))
+       [Box (plain 2 KRowGroup)
+          [Box (plain 3 KRow)
+             [Box (I 4 KCell PRelative None TNone 64) [Box (plain 5 KLine) [Box (plain 6 KText) []]]]]]].
+
+Example collapsed_cell_context_paints_no_border :
+  painted (paint_ctx (from_box w_ccell)) 4 LBg = true /\ painted (paint_ctx (from_box w_ccell)) 4 LBorder = false /\
+  painted (appendix_E_paint w_ccell) 4 LBorder = false /\ painted (paint_ctx (from_box w_ccell)) 1 LBorder = true /\
+  wf w_ccell = true.
+Proof. vm_compute. repeat split. Qed.
